@@ -260,7 +260,7 @@ Lemma refuted_empty_cnf :
   exists raw n d, load_cnf always raw n = Some d /\ (forall s : asg, cs_sat s raw = true) /\
     save_cnf d = AErr E5_no_save /\
     snd (clause_update false always d None [[1]] []) = AErr E5_no_clauses /\
-    snd (clause_update false always d (Some 3) [] []) = APanic.
+    snd (clause_update false always d (Some 3) [] []) = AErr E5_no_clauses.
 Proof.
   exists [[1; -1]], 2%nat. eexists. split; [vm_compute; reflexivity|].
   split; [|vm_compute; repeat split; reflexivity].
